@@ -157,6 +157,10 @@ def mon_C11(walk, d):
             if f.get("res") == "ok" and c is not None and (c.error_step is None or c.error_step >= i):
                 out.append(("violation-accepted", f"{note.get('label')}: a PUBCOMP / failing PUBREC for packet id {note['ack']['pid']} arrived before the "
                                                   f"client had sent its PUBREL and was accepted", i))
+    # a CONNACK that arrives before the CONNECT has completely left the client is a protocol violation, not a connection
+    for c in d["conns"]:
+        if c.connack_step is not None and (not c.packets or c.packets[0]["kind"] != "connect" or c.packets[0]["last_step"] > c.connack_step):
+            out.append(("connack-before-connect-sent", f"connection {c.index}: a CONNACK was accepted although the CONNECT had not been completely written yet", c.connack_step))
     # the engine never fails an entry point with an internal error while the driver and the server follow their contracts
     if True:
         for i, (o, note) in enumerate(zip(walk.out, walk.notes)):
